@@ -344,7 +344,7 @@ int ovstateMain(void)
 				beltFMTStart(st, mod, len, buf, klen); beltFMTStepE(w, iv, st);
 				for (i = 0; i < len; ++i) a[i] = w[i]; jIntArr("out", a, len);
 			}
-			jStr("cls", "ovstate"); jStr("f", f); jStr("kind", kind); jStr("pos", pos); jInt("off", off);
+			jStr("cls", "ovstate"); jStr("f", f); jStr("kind", kind); jStr("pos", pos); if (vxArg(&c, "off")) jInt("off", off);	/* a symbolic position resolves to a word-size dependent offset: not logged */
 			jOct("key", ksnap, klen);
 			if (!strcmp(f, "mac")) { jOct("in", msg, len); jOct("out", tag, 8); }
 			else if (!strcmp(f, "krp")) jOct("out", out, klen);
@@ -373,7 +373,7 @@ int ovstateMain(void)
 				jStr("op", "hmacT"); jOct("key", ksnap, klen);
 			}
 			memcpy(tsep, buf, taglen);
-			jStr("cls", "ovstate"); jStr("f", f); jStr("kind", kind); jStr("pos", pos); jInt("off", off);
+			jStr("cls", "ovstate"); jStr("f", f); jStr("kind", kind); jStr("pos", pos); if (vxArg(&c, "off")) jInt("off", off);	/* a symbolic position resolves to a word-size dependent offset: not logged */
 			jOct("in", msg, len); jOct("out", tsep, taglen); jInt("rc", 0); jEnd();
 		}
 		free(arena); free(msg); free(out); free(w); free(a);
